@@ -63,6 +63,10 @@ def run(ctx) -> None:
             and unparse(shapes.resolve_alias(vc, loops[0].iter)) in ("filepaths", "sorted(filepaths)")
         ctx.check("R1", ok, "vcs.commit: add(<each element of filepaths>)", "vcs.commit: staged paths are not exactly the configured paths",
                   f"`{unparse(c)}` in loops {[unparse(l.iter) for l in loops]}", loc=vc.loc(c))
+        if loops:
+            gs_ = shapes.guards_between(loops[0], c)
+            ctx.check("R1", not gs_, "vcs.commit: every configured path is staged unconditionally", "vcs.commit: a configured path is staged only under a condition",
+                      f"`{unparse(c)}` runs only when `{' and '.join(unparse(g) for g in gs_)}`", loc=vc.loc(c))
     # the only add_path sites of the package are in VCSAPI.add
     ap = [s for s in effects.all_sites("VCS_MUTATE:add_path")]
     ctx.check("R1", {s.fn.fq for s in ap} == {"vcs.VCSAPI.add"}, "add_path is issued only by VCSAPI.add", "vcs: files are staged outside VCSAPI.add", f"{[s.loc for s in ap]}", loc="src/bumpver/vcs.py")
